@@ -20,7 +20,9 @@ func H_C05_register() {
 	}
 	distinct(ps)
 	for i := 0; i < k; i++ {
-		impHint(f, i, ps[i])
+		if i < 2 {
+			impHint(f, i, ps[i]) // the third path (thorough tier) is never hinted
+		}
 	}
 	for i := 0; i < k; i++ {
 		qs = append(qs, f.register(ps[i]))
